@@ -211,6 +211,104 @@ def batched(ctx, n):
     return fails
 
 
+KNOWN_EIG = "jax-eig-vjp-regularisation"
+
+
+def gaussian_jax(ctx, n):
+    """JAX gradients of Gaussian-simulator outputs vs finite differences of the NumPy simulation.  Outputs that do not
+    pass through an eigendecomposition (moments, mean photon number) must agree to 1e-7; particle detection probabilities
+    go through `_math/jax/utils.py:eig`, whose VJP is deliberately regularised (Lorentzian broadening eps = 1e-6): a
+    relative deviation up to 1e-3 there is the recorded known finding, anything larger a violation"""
+    import piquasso as pq
+    import jax
+    import jax.numpy as jnp
+    jax.config.update("jax_enable_x64", True)
+    rng = np.random.default_rng(ctx.seed + 100001)
+    fails = []
+    u = lambda a, b: float(rng.uniform(a, b))
+    for it in range(n):
+        d = int(rng.integers(1, 4))
+        spec = []
+        x = []
+        for _ in range(int(rng.integers(2, 5))):
+            c = int(rng.integers(0, 5))
+            a, b = (int(t) for t in rng.choice(d, size=2, replace=False)) if d >= 2 else (0, 0)
+            if c == 0 or d == 1 and c in (2, 4):
+                spec.append(("Squeezing", (a,), len(x))); x += [u(0.1, 0.5), u(-3, 3)]
+            elif c == 1:
+                spec.append(("Displacement", (a,), len(x))); x += [u(0.1, 0.6), u(-3, 3)]
+            elif c == 2:
+                spec.append(("Beamsplitter", (a, b), len(x))); x += [u(-3, 3), u(-3, 3)]
+            elif c == 3:
+                spec.append(("Phaseshifter", (a,), len(x))); x += [u(-3, 3)]
+            else:
+                spec.append(("Squeezing2", (a, b), len(x))); x += [u(0.1, 0.4), u(-3, 3)]
+        x = np.array(x)
+
+        def prog(xs):
+            ins = [pq.Vacuum()]
+            for name, modes, k in spec:
+                if name == "Phaseshifter":
+                    ins.append(pq.Phaseshifter(phi=xs[k]).on_modes(*modes))
+                elif name == "Beamsplitter":
+                    ins.append(pq.Beamsplitter(theta=xs[k], phi=xs[k + 1]).on_modes(*modes))
+                else:
+                    ins.append(getattr(pq, name)(r=xs[k], phi=xs[k + 1]).on_modes(*modes))
+            return pq.Program(instructions=ins)
+        occ = tuple(int(t) for t in rng.integers(0, 2, size=d))
+        i0, j0 = int(rng.integers(0, 2 * d)), int(rng.integers(0, 2 * d))
+        outs = {"covariance": (lambda st, lib: st.xpxp_covariance_matrix[i0, j0], 1e-7, False),
+                "mean_photon_number": (lambda st, lib: lib.real(st.mean_photon_number()), 1e-7, False),
+                "detection_probability": (lambda st, lib: lib.real(st.get_particle_detection_probability(occ)), 1e-7, True)}
+        desc = {"d": d, "gates": [(n_, m) for n_, m, _ in spec], "x": x.tolist(), "occupation": occ, "cov_entry": (i0, j0)}
+        ctx.count(("gaussian-jax", it), nontrivial=len(spec) >= 3)
+        for oname, (fn, tol, through_eig) in outs.items():
+            try:
+                f_np = lambda xs: float(np.real(fn(pq.GaussianSimulator(d=d, config=pq.Config(cutoff=4)).execute(prog(list(xs))).state, np)))
+                h = 1e-5
+                fd = np.array([(f_np(x + e) - f_np(x - e)) / (2 * h) for e in np.eye(len(x)) * h])
+                jc = pq.JaxConnector()
+                g = np.asarray(jax.grad(lambda xs: jnp.real(fn(pq.GaussianSimulator(d=d, config=pq.Config(cutoff=4), connector=jc).execute(prog([xs[i] for i in range(len(x))])).state, jnp)))(jnp.array(x)))
+            except Exception as e:
+                fails.append((f"gaussian-jax-raise:{oname}:{type(e).__name__}", f"{oname}: {type(e).__name__}: {str(e)[:140]}", desc)); continue
+            err = float(np.abs(g - fd).max())
+            scale = 1e-9 + float(np.abs(fd).max())
+            if err > tol * (1 + scale):
+                if through_eig and err <= 1e-3 * scale:
+                    fails.append((KNOWN_EIG, f"JAX gradient of {oname} deviates from finite differences by {err:.2e} (relative {err / scale:.1e})", desc))
+                else:
+                    i = int(np.argmax(np.abs(g - fd)))
+                    fails.append((f"gradient:jax:Gaussian:{oname}", f"JAX gradient of the Gaussian {oname} w.r.t. parameter {i}: {g[i]:.8g}, finite differences {fd[i]:.8g}", desc))
+    return fails
+
+
+def pinned_eig_finding(ctx):
+    """the input the known finding is recorded with"""
+    import piquasso as pq
+    import jax
+    import jax.numpy as jnp
+    jax.config.update("jax_enable_x64", True)
+
+    def prog(x):
+        with pq.Program() as p:
+            pq.Q() | pq.Vacuum()
+            pq.Q(0) | pq.Squeezing(r=x[0], phi=x[1])
+            pq.Q(1) | pq.Displacement(r=x[2], phi=0.3)
+            pq.Q(0, 1) | pq.Beamsplitter(theta=x[3], phi=0.4)
+        return p
+    x0 = np.array([0.3, 0.7, 0.4, 0.9])
+    f_np = lambda x: float(pq.GaussianSimulator(d=2, config=pq.Config(cutoff=4)).execute(prog(list(x))).state.get_particle_detection_probability((1, 1)))
+    fd = np.array([(f_np(x0 + e) - f_np(x0 - e)) / 2e-5 for e in np.eye(4) * 1e-5])
+    jc = pq.JaxConnector()
+    g = np.asarray(jax.grad(lambda x: jnp.real(pq.GaussianSimulator(d=2, config=pq.Config(cutoff=4), connector=jc).execute(prog([x[i] for i in range(4)])).state.get_particle_detection_probability((1, 1))))(jnp.array(x0)))
+    err = float(np.abs(g - fd).max()); scale = float(np.abs(fd).max())
+    ctx.count("pinned:" + KNOWN_EIG, True)
+    ctx.notes["pinned_eig_finding"] = {"abs_error": err, "relative": err / scale}
+    if err > 1e-7 * (1 + scale):
+        key = KNOWN_EIG if err <= 1e-3 * scale else "gradient:jax:Gaussian:detection_probability:pinned"
+        ctx.fail(key, f"JAX gradient of P(1,1) deviates from finite differences by {err:.2e} (relative {err / scale:.1e})", {"program": "Vacuum; Squeezing(0.3,0.7) on 0; Displacement(0.4,0.3) on 1; Beamsplitter(0.9,0.4)", "fd": fd.tolist(), "jax": g.tolist()})
+
+
 # ------------------------------------------------------------------ rule correspondences
 def disp_entry(m, n, r, phi):
     if m < 0 or n < 0:
@@ -364,6 +462,8 @@ def run(ctx):
         if not quick:
             fails += native_grad_perm(ctx, 200, True)
         fails += jax_perm(ctx, 25 if quick else 300)
+        pinned_eig_finding(ctx)
+        fails += gaussian_jax(ctx, 6 if quick else 80)
         fails += circuits(ctx, 45 if quick else 600)
         fails += batched(ctx, 4 if quick else 40)
     seen = set()
